@@ -270,4 +270,16 @@ def shown : List Rec → List Rec
 /-- the sum over the files listed below the directory, each once -/
 def listedTotal (inDir : Bytes → Bool) (rep : List Rec) : Nat := dirTotal inDir (shown rep)
 
+/-! ### re-import of a report (the rewrite side of the lcov fixed point, C05) -/
+
+/-- the result map a re-import of the report starts from: every record under its reported
+relative path, with its data (what `SF:` / the records of an lcov report carry) -/
+def reKeys (rep : List Rec) : List (Bytes × Cov) := rep.map fun r => (r.rel, r.cov)
+
+/-- `rewrite_paths`, export, import with the same options, `rewrite_paths` again -/
+def rewriteTwice (cfg : Cfg) (fs : FS) (m : List (Bytes × Cov)) : Res (List Rec) :=
+  match rewritePaths cfg fs m with
+  | .panic s => .panic s
+  | .ok rep => rewritePaths cfg fs (reKeys rep)
+
 end Grcov.Rewrite
